@@ -183,7 +183,7 @@ impl Prop for C02 {
         ]
     }
     fn cases(tier: Tier) -> u64 {
-        tier.pick(15_000, 300_000)
+        tier.pick(15_000, 60_000)
     }
     fn strategy(tier: Tier) -> BoxedStrategy<Case> {
         prop_oneof![
